@@ -164,6 +164,19 @@ static uint64_t family_pattern(const Case& c) {
     return unbounded <= 3;
   };
   const bool match_ok = regex_safe(pat) && regex_safe(c[2].substr(0, 48)) && regex_safe(c[3].substr(0, 48));
+  // Construction itself runs one regex_match per special scheme against the compiled *protocol* component, so a protocol
+  // text with stacked quantifiers ("*****b***") blows up inside std::regex at construction time already (seen as libFuzzer
+  // timeouts in the thorough tier, stack entirely in std::__detail::_Executor). The protocol part of a constructor string is
+  // what precedes the first ':' that does not start a name.
+  auto proto_part = [](const std::string& s) {
+    for (size_t i = 0; i < s.size(); i++) {
+      if (s[i] == '\\') { i++; continue; }
+      if (s[i] == ':') { unsigned char nx = i + 1 < s.size() ? (unsigned char)s[i + 1] : 0; if (!(isalpha(nx) || nx == '_' || nx == '$' || nx >= 0x80)) return s.substr(0, i); }
+    }
+    return std::string();
+  };
+  const bool ctor_ok = regex_safe(proto_part(pat));
+  const bool proto_ok = regex_safe(c[3].substr(0, 24));
   auto use = [&](ada::url_pattern<regex_provider>& p) {
     n_patterns_ok++; fam |= 64;
     if (!match_ok) { sink += p.get_pathname().size() + p.has_regexp_groups(); return; }
@@ -177,10 +190,10 @@ static uint64_t family_pattern(const Case& c) {
     ada::url_pattern_init ii; ii.pathname = inp.substr(0, 40); ii.hostname = c[2].substr(0, 40); if (ops.size() > 1 && (ops[1] & 1)) ii.base_url = bas;
     auto t3 = p.test(ii, nullptr); auto e3 = p.exec(ii, nullptr); sink += (t3 ? *t3 : 2); if (e3 && e3->has_value()) sink += (**e3).search.input.size();
   };
-  { auto r = ada::parse_url_pattern<regex_provider>(xp.sv(), nullptr, &opt); if (r) use(*r); }
-  { auto r = ada::parse_url_pattern<regex_provider>(xp.sv(), &bsv, nullptr); if (r) use(*r); }
+  if (ctor_ok) { auto r = ada::parse_url_pattern<regex_provider>(xp.sv(), nullptr, &opt); if (r) use(*r); }
+  if (ctor_ok) { auto r = ada::parse_url_pattern<regex_provider>(xp.sv(), &bsv, nullptr); if (r) use(*r); }
   { ada::url_pattern_init init; unsigned m = ops.size() > 2 ? (unsigned char)ops[2] : 0xFF;
-    if (m & 1) init.protocol = c[3].substr(0, 24); if (m & 2) init.username = c[2].substr(0, 24); if (m & 4) init.password = c[3].substr(0, 24); if (m & 8) init.hostname = c[2].substr(0, 48);
+    if ((m & 1) && proto_ok) init.protocol = c[3].substr(0, 24); if (m & 2) init.username = c[2].substr(0, 24); if (m & 4) init.password = c[3].substr(0, 24); if (m & 8) init.hostname = c[2].substr(0, 48);
     if (m & 16) init.port = c[3].substr(0, 8); if (m & 32) init.pathname = pat; if (m & 64) init.search = c[2].substr(0, 48); if (m & 128) init.hash = c[3].substr(0, 48);
     if (ops.size() > 3 && (ops[3] & 1)) init.base_url = bas;
     auto r = ada::parse_url_pattern<regex_provider>(std::move(init), nullptr, &opt); if (r) use(*r); }
